@@ -199,6 +199,33 @@ def post_lookup_array_form(lookup_value, lookup_array, result_range, result):
     return result == lookup_array[h - 1][pos - 1]
 
 
+def post_lookup_vector_form(lookup_value, lookup_array, result_range, result):
+    """vector form: the position MATCH finds in the lookup vector (first column of a tall / square array, first row of a
+    wide one) selects the cell INDEX would return from the result vector: #REF! beyond its end, never an exception; a
+    result range that is not a vector is #N/A"""
+    h = len(lookup_array)
+    w = len(lookup_array[0])
+    rh = len(result_range)
+    rw = len(result_range[0])
+    if rw < rh:
+        if rw != 1:
+            return result == NA_ERROR
+        res = [row[0] for row in result_range]
+    else:
+        if rh != 1:
+            return result == NA_ERROR
+        res = result_range[0]
+    if w <= h:
+        pos = same_call(MATCH, lookup_value, [row[0] for row in lookup_array], 1)
+    else:
+        pos = same_call(MATCH, lookup_value, lookup_array[0], 1)
+    if isinstance(pos, str):
+        return result == pos
+    if pos > len(res):
+        return result == REF_ERROR
+    return result == res[pos - 1]
+
+
 L = 'pycel.lib.lookup:'
 scalar = Union(NoneT(), Bool(), Int(), Float(), Str())
 match_result = Union(Int(), Const(NA_ERROR))
@@ -465,6 +492,9 @@ CONTRACTS = [
     Contract(L + 'lookup', 'C16',
              params=dict(lookup_value=scalar, lookup_array=Array(2), result_range=NoneT()),
              requires=[pre_lookup], ensures=[post_lookup_array_form], modular=[MATCH]),
+    Contract(L + 'lookup', 'C16', name='lookup[vector form]',
+             params=dict(lookup_value=scalar, lookup_array=Array(2), result_range=Array(2)),
+             requires=[pre_lookup], ensures=[post_lookup_vector_form], modular=[MATCH]),
 ]
 
 # -- INDEX --------------------------------------------------------------------------------------------------------
@@ -585,6 +615,16 @@ def bounded(tier, seed, R):
                 lambda: post_lookup_array_form(v, table, None, LK.lookup(v, table)), {'table': table, 'v': v})
         R.guard('lookup/post#0:post_lookup_array_form',
                 lambda: post_lookup_array_form(v, tr, None, LK.lookup(v, tr)), {'table': tr, 'v': v})
+        # vector form of LOOKUP: result vectors of every orientation, also shorter / longer than the lookup vector
+        for rlen in (h - 1, h, h + 1):
+            if rlen >= 1:
+                rcol = tuple((rnd.choice(vals),) for _ in range(rlen))
+                rrow = (tuple(x[0] for x in rcol),)
+                lcol = tuple((x,) for x in col0)
+                for rr in (rcol, rrow):
+                    R.guard('lookup[vector form]/post#0:post_lookup_vector_form',
+                            lambda: post_lookup_vector_form(v, lcol, rr, LK.lookup(v, lcol, rr)),
+                            {'lookup_vector': lcol, 'result_vector': rr, 'v': v})
         for mt in (0, 1, -1):
             col = tuple((x,) for x in col0)
             R.guard('match/post#0:post_match_fn', lambda: post_match_fn(v, col, mt, LK.match(v, col, mt)),
@@ -606,7 +646,7 @@ EXPLANATION = ('Mixed. PROVED (SMT, tables and vectors of ANY size): _match itse
                'FIRST position whose value equals v (type-strict, case-insensitive) or #N/A when there is none; '
                'bisect.bisect_right is verified from the source of Lib/bisect.py of the interpreter that runs pycel, for '
                'every key with a pure `<` (window, left-neighbour and right-neighbour facts that hold on unsorted data too). '
-               'VLOOKUP, HLOOKUP, MATCH, array-form LOOKUP and INDEX(row, col) over symbolic tables: each returns the cell '
+               'VLOOKUP, HLOOKUP, MATCH, array-form and vector-form LOOKUP and INDEX(row, col) over symbolic tables: each returns the cell '
                'INDEX would return at the position _match reports for the very vector the property names (the arguments of '
                'the internal call are proved equal to it pointwise), #VALUE!/#REF! for non-positive / too large indices, '
                'never a wrapped-around cell; these use only the contract of _match. THOROUGH TIER ONLY (minutes per scenario): '
